@@ -1,0 +1,78 @@
+// verif_seam.rs - seams for deterministic simulation.
+//
+// Compiled only with `--cfg sirc_verif`. Nothing here changes behaviour unless
+// a simulator installs a gate callback in the thread-local GATE: without one,
+// gate() returns at once and blocking() uses tokio's blocking pool as the
+// shipped code does.
+
+use std::cell::RefCell;
+use std::fmt;
+use std::future::Future;
+use std::pin::Pin;
+use tokio::io::{AsyncRead, AsyncWrite};
+
+// transport seam: anything that behaves like a byte stream.
+pub(crate) trait SimIo: AsyncRead + AsyncWrite + Send + Sync + Unpin + fmt::Debug {
+    fn sim_is_secure(&self) -> bool {
+        false
+    }
+}
+
+pub(crate) type SimStream = Box<dyn SimIo>;
+
+// scheduling seam: places where another connection's handler may run
+// on a multi-threaded runtime.
+#[allow(dead_code)]
+#[derive(Clone, Copy, Debug, PartialEq, Eq, Hash)]
+pub(crate) enum Site {
+    LockRead,
+    LockWrite,
+    Blocking,
+}
+
+pub(crate) type GateFuture = Pin<Box<dyn Future<Output = ()> + Send>>;
+pub(crate) type GateFn = Box<dyn Fn(Site) -> Option<GateFuture>>;
+
+thread_local! {
+    pub(crate) static GATE: RefCell<Option<GateFn>> = RefCell::new(None);
+}
+
+pub(crate) async fn gate(site: Site) {
+    let fut = GATE.with(|g| g.borrow().as_ref().and_then(|f| f(site)));
+    if let Some(f) = fut {
+        f.await
+    }
+}
+
+fn gate_installed() -> bool {
+    GATE.with(|g| g.borrow().is_some())
+}
+
+// blocking-pool seam: under a simulator the closure runs inline and the pool's
+// latency is represented by a gate after it.
+pub(crate) async fn blocking<R: Send + 'static, F: FnOnce() -> R + Send + 'static>(f: F) -> R {
+    if gate_installed() {
+        let r = f();
+        gate(Site::Blocking).await;
+        r
+    } else {
+        tokio::task::spawn_blocking(f).await.unwrap()
+    }
+}
+
+// state lock seam: same lock, with a gate in front of every acquisition.
+pub(crate) struct RwLock<T>(tokio::sync::RwLock<T>);
+
+impl<T> RwLock<T> {
+    pub(crate) fn new(t: T) -> Self {
+        RwLock(tokio::sync::RwLock::new(t))
+    }
+    pub(crate) async fn read(&self) -> tokio::sync::RwLockReadGuard<'_, T> {
+        gate(Site::LockRead).await;
+        self.0.read().await
+    }
+    pub(crate) async fn write(&self) -> tokio::sync::RwLockWriteGuard<'_, T> {
+        gate(Site::LockWrite).await;
+        self.0.write().await
+    }
+}
